@@ -1,7 +1,7 @@
 """Entry / exit cascades and region-recursion helpers (C02.cascade, C03.start-stop, C08.sites, C09.entry, C10.first),
 constructor wiring order (C07.wiring), history policy tables (C08.table), blocking gate (C11.gate), try/catch shape (C12.catch)."""
 from engine import rule
-from facts import Facts, strip_cvref, parse_type
+from facts import Facts, strip_cvref, parse_type, type_list
 from rules_core import backend_of, is_backend
 from effects import Effects, leaf_class, ACTIVE_MEMBERS, FLAG_MEMBER
 from rules_rtc import const_of, active_index, member_chain
@@ -644,3 +644,222 @@ def drain(F, R):
                     ok = False; why = 'process_event_pool re-entered while already draining the pool'
         R.ob('C10.first', ok, {'func': f.q})
         if not ok: R.find('C10.first', f, 'post-step', why)
+
+# ------------------------------------------------------------------ history policies (C08.table, C08.event)
+
+def array_copies(f):
+    """element-wise copies `dst[i] = src[i]` inside a counting loop: list of (dst name, src name, loop covers 0..N-1 ?)"""
+    out = []
+    for i, n in enumerate(f.nodes):
+        if not n or n['k'] != 'asg' or n['op'] != '=': continue
+        l = f.nodes[n['lhs']]; r = f.nodes[n['rhs']]
+        while r and r['k'] in ('icast', 'cast'): r = f.nodes[r['e']]
+        if not (l and l['k'] == 'sub' and r and r['k'] == 'sub'): continue
+        def base_name(x):
+            b = f.nodes[x['b']]
+            while b and b['k'] in ('icast', 'cast'): b = f.nodes[b['e']]
+            if b and b['k'] == 'mem':
+                o = f.nodes[b['b']]
+                return ('rhs.' if o and o['k'] == 'ref' else '') + b['n']
+            if b and b['k'] == 'ref': return b['n']
+            return None
+        li = f.nodes[l['i']]; ri = f.nodes[r['i']]
+        while li and li['k'] in ('icast', 'cast'): li = f.nodes[li['e']]
+        while ri and ri['k'] in ('icast', 'cast'): ri = f.nodes[ri['e']]
+        same_ix = bool(li and ri and li['k'] == 'ref' and ri['k'] == 'ref' and li['n'] == ri['n'])
+        var = li['n'] if li and li['k'] == 'ref' else None
+        full = False
+        if var and same_ix:
+            init0 = any(v['n'] == var and v['hasinit'] and const_of(f, v['init']) == 0 for m in f.nodes if m and m['k'] == 'decl' for v in m['vars'])
+            bound = False
+            for b in f.blocks:
+                if b.get('tc'):
+                    c = f.nodes[b['tc']]
+                    if c['k'] == 'bin' and c['op'] == '<':
+                        cl = f.nodes[c['lhs']]
+                        while cl and cl['k'] in ('icast', 'cast'): cl = f.nodes[cl['e']]
+                        if cl and cl['k'] == 'ref' and cl['n'] == var:
+                            rv = const_of(f, c['rhs'])
+                            regions = (f.cls_args() or [None])[-1]
+                            if rv is not None and rv == regions: bound = True
+            inc = any(m and m['k'] == 'un' and m['op'] == '++' and f.nodes[m['e']] and f.nodes[m['e']].get('n') == var for m in f.nodes)
+            full = init0 and bound and inc
+        out.append((base_name(l), base_name(r), full))
+    return out
+
+HIST_BACK = {   # class -> method -> expected set of (dst, src) copies over all regions
+    'NoHistoryImpl': {'set_initial_states': {('m_initialStates', 'initial_states')}, 'history_exit': set(),
+                      'operator=': {('m_initialStates', 'rhs.m_initialStates')}},
+    'AlwaysHistoryImpl': {'set_initial_states': {('m_initialStates', 'initial_states')}, 'history_exit': {('m_initialStates', 'current_states')},
+                          'operator=': {('m_initialStates', 'rhs.m_initialStates')}},
+    'ShallowHistoryImpl': {'set_initial_states': {('m_currentStates', 'initial_states'), ('m_initialStates', 'initial_states')},
+                           'history_exit': {('m_currentStates', 'current_states')},
+                           'operator=': {('m_initialStates', 'rhs.m_initialStates'), ('m_currentStates', 'rhs.m_currentStates')}},
+}
+
+@rule('history')
+def history(F, R):
+    M = Model(F)
+    for f in F.funcs:
+        if not f.blocks: continue
+        # ---------------- back / back11 policy implementations (shared file)
+        if f.file == 'boost/msm/back/history_policies.hpp' and f.cls in HIST_BACK:
+            exp = HIST_BACK[f.cls].get(f.n)
+            if exp is not None:
+                R.seen(f); R.anchor('history-impl:%s::%s' % (f.cls, f.n))
+                got = array_copies(f)
+                gs = {(d, s) for d, s, full in got}
+                ok = gs == exp and all(full for d, s, full in got)
+                R.ob('C08.table', ok, {'func': f.q, 'copies': sorted(gs), 'all_regions': all(full for _, _, full in got)})
+                if not ok: R.find('C08.table', f, 'copies', '%s::%s copies %s (all regions: %s), required %s over regions 0..N-1' % (f.cls, f.n, sorted(gs), [full for _, _, full in got], sorted(exp)))
+            if f.n == 'history_entry':
+                R.seen(f); R.anchor('history-impl:%s::history_entry' % f.cls)
+                ev = strip_cvref(str((f.targs() or [''])[0]))
+                rets = set()
+                for p in f.paths():
+                    for i in f.path_nodes(p):
+                        n = f.nodes[i]
+                        if n and n['k'] == 'ret':
+                            r = f.nodes[n['e']]
+                            while r and r['k'] in ('icast', 'cast'): r = f.nodes[r['e']]
+                            rets.add(r['n'] if r and r['k'] == 'mem' else f.expr(n['e']))
+                if f.cls == 'ShallowHistoryImpl':
+                    evs = [strip_cvref(x) for x in (type_list(str(f.cls_args()[0])) or [])]
+                    expect = {'m_currentStates'} if ev in evs else {'m_initialStates'}
+                else:
+                    expect = {'m_initialStates'}
+                ok = rets == expect
+                R.ob('C08.table', ok, {'func': f.q, 'event': Facts.short(ev, 50), 'returns': sorted(rets)})
+                if not ok: R.find('C08.table', f, 'entry', '%s::history_entry<%s> returns %s, required %s' % (f.cls, Facts.short(ev, 50), sorted(rets), sorted(expect)))
+                # C08.event: the entering event itself, never a wrapper / reference / cv-qualified type
+                raw = str((f.targs() or [''])[0])
+                oke = raw == strip_cvref(raw) and not parse_type(raw)[0].endswith('::direct_entry_event')
+                R.ob('C08.event', oke, {'func': f.q, 'event': Facts.short(raw, 80)})
+                if not oke: R.find('C08.event', f, 'wrapped-event', 'history_entry is instantiated with %s: the shallow-history membership test must see the entering event\'s own type' % Facts.short(raw, 120), instance=Facts.short(raw, 160))
+            if f.n == 'process_deferred_events':
+                R.seen(f); R.anchor('history-impl:%s::process_deferred_events' % f.cls)
+                ev = strip_cvref(str((f.targs() or [''])[0]))
+                rv = F.const_return(f.k)
+                if f.cls == 'NoHistoryImpl': expect = 0
+                elif f.cls == 'AlwaysHistoryImpl': expect = 1
+                else:
+                    evs = [strip_cvref(x) for x in (type_list(str(f.cls_args()[0])) or [])]
+                    expect = 1 if ev in evs else 0
+                ok = rv == expect
+                R.ob('C08.table', ok, {'func': f.q, 'event': Facts.short(ev, 50), 'returns': rv})
+                if not ok: R.find('C08.table', f, 'deferred', '%s::process_deferred_events<%s> returns %s, required %s' % (f.cls, Facts.short(ev, 50), rv, expect))
+        # ---------------- backmp11 history_impl
+        if backend_of(f) == 'backmp11' and 'history_impl' in f.classes and f.cls == 'history_impl':
+            pol = str((f.cls_args() or [''])[0])
+            kind = 'no' if pol.endswith('no_history') else 'always' if 'always_shallow_history' in pol else 'shallow' if 'shallow_history<' in pol else None
+            if kind is None: continue
+            if f.n == 'on_entry' and len(f.d['params']) == 2:
+                R.seen(f); R.anchor('history-impl:mp11:%s:on_entry' % kind)
+                ev = strip_cvref(str((f.targs() or ['', ''])[1]))
+                srcs = set()
+                reach = f.reachable_blocks()
+                for b in reach:
+                    for i in f.bmap[b]['e']:
+                        n = f.nodes[i]
+                        if n and ((n['k'] == 'asg' and f.base_member(n['lhs']) in ACTIVE_MEMBERS) or (n['k'] == 'call' and n.get('op') == '=' and n.get('obj') and f.base_member(n['obj']) in ACTIVE_MEMBERS)):
+                            rhs = n['rhs'] if n['k'] == 'asg' else (n['args'][0] if n['args'] else 0)
+                            r = f.nodes[rhs]
+                            while r and r['k'] in ('icast', 'cast'): r = f.nodes[r['e']]
+                            if r and r['k'] == 'mem': srcs.add('member:' + r['n'])
+                            elif r and r['k'] == 'ref' and r.get('ta') is not None:
+                                ta = F.targs(r['ta'])
+                                srcs.add('initial' if ta and str(ta[0]) == str(f.cls_args()[-1]) else 'other-constant')
+                            else: srcs.add('other:' + f.expr(rhs))
+                if kind == 'no': expect = {'initial'}
+                elif kind == 'always': expect = {'member:m_last_active_state_ids'}
+                else:
+                    head, args, _ = parse_type(pol)
+                    evs = [strip_cvref(x) for x in (args or [])]
+                    expect = {'member:m_last_active_state_ids'} if ev in evs else {'initial'}
+                ok = srcs == expect
+                R.ob('C08.table', ok, {'func': f.q, 'policy': kind, 'event': Facts.short(ev, 40), 'active_ids_from': sorted(srcs)})
+                if not ok: R.find('C08.table', f, 'entry', 'history_impl<%s>::on_entry<%s> sets the active ids from %s, required %s' % (kind, Facts.short(ev, 40), sorted(srcs), sorted(expect)))
+                raw = str((f.targs() or ['', ''])[1])
+                oke = raw == strip_cvref(raw) and 'direct_entry_event<' not in raw
+                R.ob('C08.event', oke, {'func': f.q, 'event': Facts.short(raw, 80)})
+                if not oke: R.find('C08.event', f, 'wrapped-event', 'history on_entry instantiated with %s' % Facts.short(raw, 120))
+            if f.n == 'on_exit':
+                R.seen(f); R.anchor('history-impl:mp11:%s:on_exit' % kind)
+                saves = [i for i, n in enumerate(f.nodes) if n and ((n['k'] == 'asg' and f.base_member(n['lhs']) == 'm_last_active_state_ids') or (n['k'] == 'call' and n.get('op') == '=' and n.get('obj') and f.base_member(n['obj']) == 'm_last_active_state_ids'))]
+                src_ok = True
+                for i in saves:
+                    n = f.nodes[i]
+                    rhs = n['rhs'] if n['k'] == 'asg' else (n['args'][0] if n['args'] else 0)
+                    if f.base_member(rhs) not in ACTIVE_MEMBERS: src_ok = False
+                ok = (len(saves) == 0) if kind == 'no' else (len(saves) == 1 and src_ok)
+                R.ob('C08.table', ok, {'func': f.q, 'policy': kind, 'saves': len(saves)})
+                if not ok: R.find('C08.table', f, 'exit', 'history_impl<%s>::on_exit stores the active configuration %d time(s)' % (kind, len(saves)))
+    # memory cells: by-value members initialised from the initial states
+    for r in F.records:
+        if r['n'] == 'history_impl' and r['loc'].startswith('boost/msm/backmp11/'):
+            t = F.strs[r['t']]
+            args = F.targs(r.get('a')) or []
+            for fd in r['fields']:
+                if fd['n'] == 'm_last_active_state_ids':
+                    R.anchor('history-cell:mp11')
+                    ft = F.strs[fd['t']]
+                    ok = bool(fd.get('init')) and any(x.get('ta') and str((F.targs(x['ta']) or [''])[0]) == str(args[-1]) for x in fd.get('irefs', []))
+                    ok = ok and '*' not in ft and '&' not in ft
+                    R.ob('C08.table', ok, {'record': Facts.short(t, 80), 'field': fd['n'], 'initialiser_refs': [x['n'] for x in fd.get('irefs', [])]})
+                    if not ok: R.find('C08.table', ('boost/msm/backmp11/detail/history_impl.hpp', 'boost::msm::backmp11::history_impl'), 'cell-init', 'history memory %s of %s is not a by-value member initialised from the initial state ids: a first entry through a history event activates state id 0 in every region' % (fd['n'], Facts.short(t, 80)), where=r['loc'], instance=Facts.short(t, 200))
+        if r['n'] in ('state_machine', 'state_machine_base') and r['org'] == 1:
+            for fd in r['fields']:
+                if fd['n'] == 'm_history':
+                    R.anchor('history-member:' + ('backmp11' if 'backmp11' in r['loc'] else 'back11' if 'back11' in r['loc'] else 'back'))
+                    ft = F.strs[fd['t']]
+                    ok = not ft.rstrip().endswith('*') and not ft.rstrip().endswith('&') and 'shared_ptr' not in ft
+                    R.ob('C08.private', ok, {'record': Facts.short(F.strs[r['t']], 60), 'type': Facts.short(ft, 60)})
+                    if not ok: R.find('C08.private', ('boost/msm', r['q']), 'shared-history', 'history memory is not a by-value member: %s' % ft, where=r['loc'])
+
+@rule('bounds')
+def bounds(F, R):
+    """C03.bounds / C09.exit-bound: a range over a machine's active-state array (`x.current_state() + K`, the end of a search for an
+    active id) must use that machine's own region count: K == nr_regions of the static type of x."""
+    def nr_regions_of(t):
+        rec = F.rec_by_type(strip_cvref(t))
+        depth = 0
+        while rec and depth < 4:
+            if 'nr_regions' in rec['tds']:
+                s = F.strs[rec['tds']['nr_regions']]
+                h_, a_, r_ = parse_type(s)
+                if h_ == 'boost::mpl::size' and a_:
+                    l_ = type_list(a_[0])
+                    if l_ is not None: return len(l_)
+                if 'int_<' in s:
+                    try: return int(s.split('int_<')[1].split('>')[0])
+                    except ValueError: return None
+            if 'nr_regions' in rec['consts']: return rec['consts']['nr_regions']
+            nxt = None
+            for b in rec['bases']: nxt = nxt or F.rec_by_type(F.strs[b['t']])
+            rec = nxt; depth += 1
+        return None
+    def resolve(f, nid, depth=0):
+        n = f.nodes[nid] if nid else None
+        while n and n['k'] in ('icast', 'cast'): n = f.nodes[n['e']]
+        if not n or depth > 4: return None
+        if n['k'] == 'call' and n.get('n') == 'current_state' and n.get('obj'): return f.type_of(n['obj'])
+        if n['k'] == 'ref' and n.get('dk') == 'local':
+            for m in f.nodes:
+                if m and m['k'] == 'decl':
+                    for v in m['vars']:
+                        if v['n'] == n['n'] and v['hasinit']: return resolve(f, v['init'], depth + 1)
+        return None
+    for f in F.funcs:
+        if not is_backend(f) or not f.blocks: continue
+        for i, n in enumerate(f.nodes):
+            if not n or n['k'] != 'bin' or n['op'] != '+': continue
+            t = resolve(f, n['lhs'])
+            if not t: continue
+            k = const_of(f, n['rhs'])
+            nr = nr_regions_of(t)
+            if k is None or nr is None: continue
+            R.seen(f); R.anchor('active-range:' + backend_of(f))
+            ok = k == nr
+            R.ob('C03.bounds', ok, {'func': f.q, 'range_end': f.expr(i)[:80], 'k': k, 'nr_regions_of_owner': nr})
+            if not ok:
+                R.find('C03.bounds', f, 'range-end', 'the end of the active-state range of %s is taken at +%d but that machine has %d region(s): %s' % (Facts.short(strip_cvref(t), 80), k, nr, f.expr(i)[:100]), where=f.at(i))
